@@ -714,6 +714,12 @@ sqf::runtime::runtime::result sqf::runtime::runtime::execute(sqf::runtime::runti
     {
         while (m_state == state::running);
     }
+    if (!nested && m_state != state::running)
+    { // no run is in progress: the exit request and the time budget of an earlier run are not
+      // those of this evaluation
+        m_is_exit_requested = false;
+        m_run_timestamp = std::chrono::system_clock::now();
+    }
     auto& sqf_parser = parser_sqf();
     auto opt_set = sqf_parser.parse(*this, view, { std::string("__evaluate_expression__.sqf"), {} });
     if (opt_set.has_value())
@@ -734,6 +740,10 @@ sqf::runtime::runtime::result sqf::runtime::runtime::execute(sqf::runtime::runti
                 }
                 execute_do(*this, 1);
                 m_state = oldstate;
+                if (m_is_exit_requested)
+                { // nothing executes any more (exit__, time limit): the evaluation is over
+                    break;
+                }
             }
         }
         catch (const std::exception& ex)
@@ -741,6 +751,14 @@ sqf::runtime::runtime::result sqf::runtime::runtime::execute(sqf::runtime::runti
             if (!nested) { m_evaluate_halt = false; }
         }
         m_context_active = old_active;
+        if (!eval_context->empty())
+        { // cut short: what is left of it must not be picked up by a later run
+            m_contexts.erase(std::remove(m_contexts.begin(), m_contexts.end(), eval_context), m_contexts.end());
+            if (!nested) { m_evaluate_halt = false; }
+            m_runtime_error = false;
+            success = false;
+            return {};
+        }
         if (m_runtime_error)
         {
             if (!nested) { m_evaluate_halt = false; }
